@@ -35,6 +35,16 @@ EVENT_ACTIONS = [
 ]
 
 
+# tree-changing events through the Python API (what red agents, scripted software and set-up code use): the request tree has to
+# follow the components whichever way they come and go
+API_EVENTS = [
+    ("api", "uninstall", "client_1", "web-browser"), ("api", "uninstall", "web_server", "web-server"),
+    ("api", "install", "client_2", "database-client"), ("api", "delete_file", "backup_server", "docs", "b.txt"),
+    ("api", "delete_folder", "backup_server", "docs"), ("api", "restore_folder", "backup_server", "docs"),
+    ("api", "create_file", "client_1", "apidir", "n.txt"),
+]
+
+
 class Sut:
     pass
 
@@ -103,6 +113,9 @@ class ReqAdapter(engine.Adapter):
         self.variant = variant
         self.name = "c05-%s%s" % (variant["name"], "-light" if light else "")
         self.cfg = HE.gen_scenario(variant)
+        for n in self.cfg["simulation"]["network"]["nodes"]:
+            if n["hostname"] in variant.get("initially_off", ()):
+                n["operating_state"] = "OFF"  # a node the scenario declares as switched off (started later by an action)
         self.actions = HE.blue_actions(variant)
         self.light = light
         self.events = [("tick",)]
@@ -111,6 +124,11 @@ class ReqAdapter(engine.Adapter):
                 if e["action"] == want and (tgt is None or tgt in str(sorted(e["options"].items()))) and "ghost" not in str(e["options"]):
                     self.events.append(("act", i))
                     break
+        self.events += [e for e in API_EVENTS]
+        for hn in variant.get("initially_off", ()):
+            for i, e in enumerate(self.actions):
+                if e["action"] == "node-startup" and e["options"].get("node_name") == hn and ("act", i) not in self.events:
+                    self.events.append(("act", i))
 
     def params(self):
         return {"variant": self.variant, "light": self.light}
@@ -135,6 +153,8 @@ class ReqAdapter(engine.Adapter):
         return self.events
 
     def label(self, ev):
+        if ev[0] == "api":
+            return "api-" + ev[1]
         return ev[0] if ev[0] == "tick" else self.actions[ev[1]]["action"]
 
     def canon(self, s):
@@ -146,11 +166,42 @@ class ReqAdapter(engine.Adapter):
             s.t += 1
             s.sim.pre_timestep(s.t)
             outcome = "tick"
+        elif ev[0] == "api":
+            outcome = self._api(s, ev)
         else:
             entry = self.actions[ev[1]]
             resp = s.sim.apply_request(_form(entry))
             outcome = resp.status
         return outcome, self._probe(s, ev)
+
+    def _api(self, s, ev):
+        node = s.sim.network.get_node_by_hostname(ev[2])
+        k = ev[1]
+        try:
+            if k == "uninstall":
+                if ev[3] not in node.software_manager.software:
+                    return "absent"
+                node.software_manager.uninstall(ev[3])
+                return "done"
+            if k == "install":
+                from primaite.simulator.system.applications.application import Application
+
+                if ev[3] in node.software_manager.software:
+                    return "present"
+                node.software_manager.install(Application._registry[ev[3]])
+                return "done"
+            fs = node.file_system
+            if k == "delete_file":
+                return repr(fs.delete_file(folder_name=ev[3], file_name=ev[4]))
+            if k == "delete_folder":
+                return repr(fs.delete_folder(folder_name=ev[3]))
+            if k == "restore_folder":
+                return repr(fs.restore_folder(folder_name=ev[3]))
+            if k == "create_file":
+                return type(fs.create_file(file_name=ev[4], folder_name=ev[3])).__name__
+        except Exception as e:  # noqa - the API's own error behaviour is not C05's subject; the resulting tree is
+            return "raised-" + type(e).__name__
+        raise engine.HarnessError("unknown api event %r" % (ev,))
 
     def _compare(self, s, base, batch, add):
         return _compare_impl(self, s, base, batch, add)
@@ -209,6 +260,53 @@ class ReqAdapter(engine.Adapter):
                 if len(executed) % 400 == 0:
                     base = self._compare(s, base, executed[-400:], add)
         base = self._compare(s, base, executed[-(len(executed) % 400):] if len(executed) % 400 else [], add)
+        # D: file-system requests that address their target by PARAMETER (delete / restore / access <folder> [<file>]): when the
+        # named folder or file does not exist (never created, or deleted and therefore unavailable) the answer is never
+        # 'success' and nothing changes.  Requests whose target exists are not executed here (they legitimately change state).
+        executed_d = []
+        for node in sim.network.nodes.values():
+            fs = getattr(node, "file_system", None)
+            if fs is None:
+                continue
+            hn = node.config.hostname
+            live = {fo.name: fo for fo in fs.folders.values()}
+            dele = {fo.name: fo for fo in fs.deleted_folders.values()}
+            folders = list(live)[:2] + list(dele)[:2] + ["no_such_dir"]
+            for F in folders:
+                fo = live.get(F) or dele.get(F)
+                lf = {f.name for f in fo.files.values()} if fo is not None else set()
+                df = {f.name for f in fo.deleted_files.values()} if fo is not None else set()
+                files = sorted(lf)[:2] + sorted(df - lf)[:2] + ["no_such_file"]
+                cands = []
+                if F not in live:
+                    cands.append((["delete", "folder", F], "folder-%s" % ("deleted" if F in dele else "never")))
+                if F not in live and F not in dele:
+                    cands.append((["restore", "folder", F], "folder-never"))
+                for f in files:
+                    why = None
+                    if F not in live:
+                        why = "folder-%s" % ("deleted" if F in dele else "never")
+                    elif f not in lf:
+                        why = "file-%s" % ("deleted" if f in df else "never")
+                    if why:
+                        cands.append((["delete", "file", F, f], why))
+                        cands.append((["access", F, f], why))
+                    if F not in live or (f not in lf and f not in df):
+                        cands.append((["restore", "file", F, f], why or "file-never"))
+                for tail, why in cands:
+                    req = ["network", "node", hn, "file_system"] + tail
+                    s.stats["param_addressed_executed"] = s.stats.get("param_addressed_executed", 0) + 1
+                    try:
+                        resp = sim.apply_request(list(req))
+                    except Exception as e:  # noqa
+                        add(violation("answered_not_raised", "param:%s:%s" % ("/".join(tail[:2]), type(e).__name__),
+                                      "request %r (%s) raised %s: %s" % (req, why, type(e).__name__, e)))
+                        continue
+                    if getattr(resp, "status", None) == "success":
+                        add(violation("missing_component_never_success", "param:%s:%s" % ("/".join(tail[:2]), why),
+                                      "request %r names a %s that does not exist (%s) but was answered %r" % (req, tail[1], why, resp)))
+                    executed_d.append((list(req), ("param-missing", 4, why), "file_system/" + "/".join(tail[:2])))
+        base = self._compare(s, base, executed_d, add)
         # A2: every route of the live tree leads to the live component it names (and only existing components have routes)
         for v in _route_identity(sim):
             add(v)
@@ -457,9 +555,10 @@ def replay(doc):
 
 def run(tier, is_known):
     t0 = time.time()
-    plans = [(HE.GEN[0], 1, False), (HE.GEN[2], 1, True), (HE.GEN[0], 2, True)]
+    off = dict(HE.GEN[0], name="gen0-off", initially_off=["client_2", "backup_server", "switch_2"])
+    plans = [(HE.GEN[0], 1, False), (HE.GEN[2], 1, True), (off, 2, True)]
     if tier == "thorough":
-        plans = [(HE.GEN[0], 2, False), (HE.GEN[2], 2, False), (HE.GEN[4], 3, True)]
+        plans = [(HE.GEN[0], 2, False), (HE.GEN[2], 2, False), (HE.GEN[4], 3, True), (off, 2, False)]
     viols = []
     per = []
     states = trans = 0
